@@ -155,11 +155,18 @@ impl<C: Cursor> Cursor for BoundsCursor<C> {
     }
 
     fn prev(&mut self) -> Result<(), SError> {
-        if self.bounds != Bounds::BeforeStart {
+        // NOTE:  A seek may leave the underlying cursor beyond the end bound (and at the end of
+        // its data).  Walking back from there has to pass over everything beyond the end bound,
+        // just as next() passes over everything before the start bound.
+        while self.bounds != Bounds::BeforeStart {
             self.cursor.prev()?;
             self.bounds = Bounds::Positioned;
+            self.check_for_end_bound_exceeded();
+            self.check_for_start_bound_exceeded();
+            if self.bounds != Bounds::AfterEnd {
+                return Ok(());
+            }
         }
-        self.check_for_start_bound_exceeded();
         Ok(())
     }
 
